@@ -37,12 +37,13 @@ mod h2run;
 
 const IMPORTS: &str =
     "From Verif Require Import Lib.Bytes Lib.Obs Lib.HeaderMap Model.Status Model.Decoder Model.Codec Model.Call.";
-const RESERVED: [&str; 6] = ["te", "user-agent", "content-type", "grpc-message", "grpc-message-type", "grpc-status"];
+pub const RESERVED: [&str; 6] = ["te", "user-agent", "content-type", "grpc-message", "grpc-message-type", "grpc-status"];
 /// header names that are not reserved but that tonic itself interprets: outside the oracle's domain
 const PROTOCOL: [&str; 4] = ["grpc-encoding", "grpc-accept-encoding", "grpc-timeout", "grpc-status-details-bin"];
 const MSG_PREFIX: &str = "Error deserializing status message header: ";
 const DET_PREFIX: &str = "Error deserializing status details header: ";
 const HTTP_PREFIX: &str = "grpc-status header missing, mapped from HTTP status code ";
+const UNSUPPORTED_PREFIX: &str = "Content is compressed with `";
 
 // ------------------------------------------------------------------ raw codec
 #[derive(Clone, Copy, Debug, Default)]
@@ -256,7 +257,7 @@ pub enum ClientResult {
     Stream(HeaderMap, Vec<Vec<u8>>, End),
 }
 fn canon_msg(m: &str) -> Vec<u8> {
-    for p in [MSG_PREFIX, DET_PREFIX, HTTP_PREFIX] {
+    for p in [UNSUPPORTED_PREFIX, MSG_PREFIX, DET_PREFIX, HTTP_PREFIX] {
         if m.starts_with(p) {
             return p.as_bytes().to_vec();
         }
@@ -526,7 +527,33 @@ where
     T::ResponseBody: HttpBody + Send + 'static,
     <T::ResponseBody as HttpBody>::Error: Into<Box<dyn std::error::Error + Send + Sync>>,
 {
-    let mut client = tonic::client::Grpc::new(svc);
+    client_side_origin(c, svc, None).await
+}
+pub fn item_coq(i: &Item) -> String {
+    i.coq()
+}
+pub fn st_coq(s: &StSpec) -> String {
+    s.coq()
+}
+pub fn case_json(c: &CallCase) -> Value {
+    c.json()
+}
+pub fn result_tr_pub(r: &ClientResult) -> Tr {
+    result_tr(r)
+}
+pub fn seen_tr_pub(s: &Seen) -> Tr {
+    seen_tr(s, None)
+}
+pub async fn client_side_origin<T>(c: &CallCase, svc: T, origin: Option<http::Uri>) -> ClientResult
+where
+    T: tonic::client::GrpcService<tonic::body::Body>,
+    T::ResponseBody: HttpBody + Send + 'static,
+    <T::ResponseBody as HttpBody>::Error: Into<Box<dyn std::error::Error + Send + Sync>>,
+{
+    let mut client = match origin {
+        Some(o) => tonic::client::Grpc::with_origin(svc, o),
+        None => tonic::client::Grpc::new(svc),
+    };
     let path = http::uri::PathAndQuery::from_static("/verif.Call/Method");
     let md = request_md(c);
     match c.shape {
